@@ -303,6 +303,12 @@ def differs(impl, model, case):
     return split_obs(io[0])[0] != split_obs(mo[0])[0]
 
 
+def diag_differs(impl, model, case):
+    io, crash = run_cases(impl, [case])
+    mo, _ = run_cases(model, [case], args=margs())
+    return (not crash) and split_obs(io[0])[1] != split_obs(mo[0])[1]
+
+
 def keep_init(pred):
     """shrinking must keep the init line first"""
     return lambda c: bool(c) and c[0].startswith("init") and pred(c)
@@ -323,7 +329,7 @@ def run_idmap(rep, tier, rng, bdir, replay=None):
     nevals = 0
     hist, classes, distinct = {}, set(), set()
     caps = {}
-    diverged, diag_only = [], 0
+    diverged, diag_only, diag_first = [], 0, None
     spec_bad = 0
     for b0 in range(0, len(cases), 250):
         batch = cases[b0:b0 + 250]
@@ -369,6 +375,9 @@ def run_idmap(rep, tier, rng, bdir, replay=None):
                 diverged.append((b0 + ci, k, case[k] if k < len(case) else "?", api[k] if k < len(api) else None, mapi[k] if k < len(mapi) else None))
             elif idiag != mdiag:
                 diag_only += 1
+                if diag_first is None:
+                    k = next((i for i in sorted(set(idiag) | set(mdiag)) if idiag.get(i) != mdiag.get(i)), 0)
+                    diag_first = (b0 + ci, k, case[k] if k < len(case) else "?", idiag.get(k), mdiag.get(k))
             if nontriv:
                 distinct.add(hash(tuple(case)))
     if diverged and not rep.violations:
@@ -376,6 +385,11 @@ def run_idmap(rep, tier, rng, bdir, replay=None):
         small = ddmin(cases[ci], keep_init(lambda c: differs(impl, model, c)))
         p = rep.replay_file("idmap_diverge_%d.case" % ci, "# model and implementation differ at op %d: %s\n# impl : %s\n# model: %s\n# (correspondence IdMapModel<->idhash.c broken on %d cases; the spec oracle found no violation of the finite-map/alloc spec)\n" % (k, line, io, mo, len(diverged)) + "\n".join(small) + "\n")
         rep.violation(p, "correspondence IdMapModel<->idhash.c broken on %d cases; first: op %r impl=%r model=%r" % (len(diverged), line[:60], (io or "")[:120], (mo or "")[:120]), nofail=True)
+    if diag_first and not diverged and not rep.violations:
+        ci, k, line, io, mo = diag_first
+        small = ddmin(cases[ci], keep_init(lambda c: diag_differs(impl, model, c)))
+        p = rep.replay_file("idmap_private_%d.case" % ci, "# private state of the table differs from the model after op %d: %s\n# impl : %s\n# model: %s\n# (API-visible results and the finite-map/alloc spec agree on all cases; %d cases differ in cap/count/load/skips:\n#  the accounting theorems I1-I3 / idmap_load_accounting no longer describe this code)\n" % (k, line, io, mo, diag_only) + "\n".join(small) + "\n")
+        rep.violation(p, "correspondence IdMapModel<->idhash.c broken on private state only (%d cases; cap/count/load/skip counters differ, every API-visible result agrees); first: op %r impl=%r model=%r" % (diag_only, line[:60], (io or "")[:160], (mo or "")[:160]), nofail=True)
     stats = {"idmap_evaluations": nevals, "idmap_cases": len(cases), "idmap_distinct_nontrivial": len(distinct),
              "idmap_op_histogram": hist, "idmap_classes": len(classes), "idmap_cap_histogram": dict(sorted(caps.items())),
              "idmap_model_impl_divergences": len(diverged), "idmap_diag_only_differences": diag_only,
